@@ -127,6 +127,19 @@ const KINDS: &[&str] = &[
     "'raw' == s",
 ];
 
+/// Expressions for the "shared" class: literals of some size in every position a
+/// function can take them, expression references, built-ins of every signature shape.
+const SHARED_TEXTS: &[&str] = &[
+    "sort(`[5, 3, 9, 1, 7, 2, 8, 4, 6, 0, 11, 10]`)",
+    "[contains(`[\"a\", \"b\", \"c\", \"d\", \"e\", \"f\", \"g\", \"h\", \"i\", \"x\"]`, s), contains(`[\"a\", \"b\", \"c\", \"d\", \"e\", \"f\", \"g\", \"h\", \"i\"]`, `\"h\"`)]",
+    "sort_by(xs, &id)[*].id",
+    "map(&abs(@), a)",
+    "{p: `[1, 2, 3]`, q: a, r: reverse(`[\"z\", \"y\"]`)}",
+    "max_by(xs, &id).id",
+    "[length(`[1, 2, 3, 4, 5, 6, 7, 8, 9]`), join('-', `[\"p\", \"q\"]`), merge(`{\"a\": 1}`, `{\"b\": 2}`)]",
+    "cid(a) || to_array(s)",
+];
+
 fn gen_text(r: &mut Rng, base: &J, custom: bool) -> String {
     let extra = ExtraFns { unary: vec!["cid".into()] };
     let none = ExtraFns::default();
@@ -167,9 +180,14 @@ pub fn generate(seed: u64, class: &str) -> Scenario {
     // "hot": the same few functions are called well over a thousand times, from all
     // threads: state that only wakes up after N calls (statistics, inline caches) wakes up.
     let hot = class == "hot";
+    // "shared": a handful of expressions compiled ONCE (through the shared custom runtime)
+    // and searched by every thread, all threads walking them in the same order (so the very
+    // first evaluation of each is contended) and two of them dozens of times (state that an
+    // Expression, its tree or its literals acquire after N searches).
+    let shared = class == "shared";
     let mut r = Rng::new(seed);
     let mut base = small_doc(&mut r);
-    if class != "general" && r.chance(1, 2) {
+    if class != "general" && class != "shared" && r.chance(1, 2) {
         // top-level array documents: the records array itself
         if let J::Obj(m) = &base {
             if let Some((_, xs)) = m.iter().find(|(k, _)| k == "xs") {
@@ -184,7 +202,8 @@ pub fn generate(seed: u64, class: &str) -> Scenario {
         docs.push(base.mutated(&mut r).to_json());
     }
     let npre = 1 + r.below(2);
-    let touch_default_first = if race || late { false } else if pool || deep || hot { true } else { r.chance(1, 2) };
+    let touch_default_first = if race || late { false } else if pool || deep || hot || shared { true } else { r.chance(1, 2) };
+    #[allow(unused_assignments)]
     let mut pre = vec![];
     for _ in 0..npre {
         // without a prior touch, pre-compiled expressions must come from the custom runtime,
@@ -208,7 +227,10 @@ pub fn generate(seed: u64, class: &str) -> Scenario {
             .collect();
         docs = vec![J::Obj(vec![("groups".into(), J::Arr(groups)), ("a".into(), J::Arr(vec![J::Int(-3), J::Int(2)]))]).to_json()];
     }
-    let nthreads = if pool { 3 + r.below(2) } else if deep { 5 } else if hot { 4 } else { 2 + r.below(3) };
+    if shared {
+        pre = SHARED_TEXTS.iter().map(|t| (true, t.to_string())).collect();
+    }
+    let nthreads = if pool { 3 + r.below(2) } else if deep { 5 } else if hot || shared { 4 } else { 2 + r.below(3) };
     let pool_texts: Vec<String> = (0..3).map(|_| gen_text(&mut r, &base, false)).collect();
     let mut threads = vec![];
     for t in 0..nthreads {
@@ -228,6 +250,16 @@ pub fn generate(seed: u64, class: &str) -> Scenario {
             ops.push(Op::WaitFor { t: 0, n: 1 });
             let d = r.below(docs.len());
             ops.push(Op::CompileSearch { text: gen_text(&mut r, &base, false), d });
+        }
+        if shared {
+            let _ = t;
+            for e in 0..pre.len() {
+                ops.push(Op::Search { e, d: r.below(docs.len()), form: r.below(3) as u8 });
+            }
+            // 4 threads x (1 + 10) searches of each of the first two expressions: 44 each
+            for k in 0..20 {
+                ops.push(Op::Search { e: k % 2, d: r.below(docs.len()), form: 0 });
+            }
         }
         if deep {
             let mut nest = String::from("a[0]");
@@ -260,7 +292,7 @@ pub fn generate(seed: u64, class: &str) -> Scenario {
                 ops.push(Op::CompileSearch { text: r.pick(&pool_texts).clone(), d });
             }
         }
-        if !(race || late || pool || deep || hot) {
+        if !(race || late || pool || deep || hot || shared) {
             // general class: a sliding window over KINDS, shifted by one per thread, so that
             // neighbouring threads evaluate the same kinds (compiled afresh or pre-compiled)
             let start = r.below(KINDS.len());
@@ -269,7 +301,7 @@ pub fn generate(seed: u64, class: &str) -> Scenario {
                 ops.push(Op::CompileSearch { text: KINDS[(start + t + k) % KINDS.len()].to_string(), d });
             }
         }
-        for _ in ops.len()..(if deep || hot { 0 } else { nops.max(ops.len() + 1) }) {
+        for _ in ops.len()..(if deep || hot || shared { 0 } else { nops.max(ops.len() + 1) }) {
             let d = r.below(docs.len());
             let e = r.below(pre.len());
             ops.push(match r.below(10) {
@@ -426,7 +458,7 @@ pub fn main() {
     if let Some(n) = arg(&args, "--batch").and_then(|x| x.parse::<u64>().ok()) {
         // native pre-pass over many scenarios: seq vs serial-threads, one line each
         for i in index..index + n {
-            let sc = generate(mix(seed, i), ["race", "general", "pool", "late", "general", "deep"][(i % 6) as usize]);
+            let sc = generate(mix(seed, i), ["race", "general", "pool", "late", "shared", "deep"][(i % 6) as usize]);
             let a = exec(&sc, "seq", false).0;
             let b = exec(&sc, "serial", false).0;
             println!("B {} {:016x} {:016x}", i, a, b);
